@@ -81,6 +81,7 @@ func (ctx *Context) Parse(value string) error {
 	d.Config = ctx.Config
 	d.ctx = ctx
 	d.pendingCustomDice = nil
+	d.curPt = &p.pt
 	ctx.Error = nil
 	ctx.NumOpCount = 0
 	ctx.detailCache = ""
@@ -99,6 +100,7 @@ func (ctx *Context) Parse(value string) error {
 		return err
 	}
 
+	p.cur.data.dropAbandonedTail(p.pt.offset)
 	ctx.code = p.cur.data.code
 	ctx.codeIndex = p.cur.data.codeIndex
 
